@@ -93,8 +93,11 @@ def shape_tref(sh, n_offsets):
     return False if sh["tref"] == "none" else (T0 - 3.25)
 
 
-def make_data(n=5, layout="short", err="hetero", unit="km/s", t_ref=None, seed=0, n_surveys=1, mixed_units=False, t_ref_scale="tcb", interleave=False, y_from=None, raw="clean", container="list", sliced=False):
+def make_data(n=5, layout="short", err="hetero", unit="km/s", t_ref=None, seed=0, n_surveys=1, mixed_units=False, t_ref_scale="tcb", interleave=False, y_from=None, raw="clean", container="list", sliced=False, tform="time"):
     """Returns (data or list of data, plain dict t, y, sig [km/s], t_ref, labels).
+
+    tform: how the epochs are handed to RVData - "time" (astropy Time), "float" (plain float64 array of BMJD, a documented form)
+    or "int" (plain integer-dtype array of whole-day BMJD stamps).
 
     raw="dirty": every RVData is built from epochs in scrambled order with two unusable rows mixed in (NaN velocity at an epoch
     BEFORE all others, infinite error in the middle) - the documented cleaning + sorting must leave exactly the observations
@@ -112,6 +115,8 @@ def make_data(n=5, layout="short", err="hetero", unit="km/s", t_ref=None, seed=0
         t = T0 + np.sort(np.arange(n) * 230.0 + j * 150.0)
     else:  # repeated epochs
         t = T0 + np.sort(np.array([(k // 2) * 7.7 for k in range(n)]) + 0.0)
+    if tform == "int":
+        t = np.sort(np.round(t))
     y = 12.0 * np.sin(np.arange(n) * 1.7 + 0.3 + seed) + 3.0 + j
     if y_from is not None:
         # noiseless data generated from the model itself at theta = y_from (P, e, omega, M0): K=7, v0=3 km/s
@@ -151,6 +156,10 @@ def make_data(n=5, layout="short", err="hetero", unit="km/s", t_ref=None, seed=0
             yy2 = np.concatenate([[np.nan], yy_.value[perm][: m // 2], [1.0], yy_.value[perm][m // 2:]]) * yu
             ss2 = np.concatenate([[1.0], ss_.value[perm][: m // 2], [np.inf], ss_.value[perm][m // 2:]]) * su
             return tj.RVData(Time(tt2, format="mjd", scale="tcb"), yy2, ss2, **kws)
+        if tform == "float":
+            return tj.RVData(np.array(tt_, dtype=np.float64), yy_, ss_, **kws)
+        if tform == "int":
+            return tj.RVData(np.array(tt_).astype(np.int64), yy_, ss_, **kws)
         return tj.RVData(Time(tt_, format="mjd", scale="tcb"), yy_, ss_, **kws)
 
     if n_surveys == 1 and sliced and t_ref is None:
